@@ -13,11 +13,12 @@ gp = world.gp
 HOST = '10.0.0.2'
 
 
-def make_protocol(transport: str, T, R, ka: bool, unit=0xF7):
+def make_protocol(transport: str, T, R, ka: bool, unit=0xF7, host=None):
+    host = host or HOST
     if transport == 'tcp':
-        p = gp.TcpInverterProtocol(HOST, 502, unit, T, R)
+        p = gp.TcpInverterProtocol(host, 502, unit, T, R)
     else:
-        p = gp.UdpInverterProtocol(HOST, 8899, unit, T, R)
+        p = gp.UdpInverterProtocol(host, 8899, unit, T, R)
     p.keep_alive = ka
     return p
 
